@@ -313,109 +313,9 @@ impl Context {
             let current_scope = self.current_scope;
             self.current_scope = struct_template_data.scope;
 
-            // Make a scope for the struct to first generate template arguments
-            // If this then is a duplicate of another struct this will be unused
-            let inst_scope = self.push_scope_with_name(&ast.name);
+            let sid_res = self.instantiate_struct_template(id, ast, template_args, error_loc);
 
-            // Fail if we are given more arguments than we support
-            if template_args.len() > ast.template_params.0.len() {
-                return Err(TyperError::TooManyTemplateArguments(error_loc));
-            }
-
-            // Register template arguments
-            let mut final_params = Vec::with_capacity(ast.template_params.0.len());
-            for (i, template_param) in ast.template_params.0.iter().enumerate() {
-                let provided_value = if i < template_args.len() {
-                    Some(&template_args[i])
-                } else {
-                    None
-                };
-
-                match template_param {
-                    ast::TemplateParam::Type(ty_param) => {
-                        let value_backing;
-                        let value = match (provided_value, &ty_param.default) {
-                            (None, Some(default)) => {
-                                let ty = parse_type_for_usage(
-                                    default,
-                                    TypePosition::TemplateArgument,
-                                    self,
-                                )?;
-                                value_backing = ir::TypeOrConstant::Type(ty);
-                                Some(&value_backing)
-                            }
-                            (value, _) => value,
-                        };
-
-                        match value {
-                            Some(ir::TypeOrConstant::Type(ty)) => {
-                                final_params.push(ir::TypeOrConstant::Type(*ty));
-                                if let Some(name) = &ty_param.name {
-                                    self.register_typedef(name.clone(), *ty)?
-                                }
-                            }
-                            None => {
-                                return Err(TyperError::TemplateArgumentMissing(
-                                    error_loc,
-                                    ty_param.name.clone(),
-                                ));
-                            }
-                            Some(_) => {
-                                return Err(TyperError::TemplateArgumentExpectedType(
-                                    error_loc,
-                                    ty_param.name.clone(),
-                                ));
-                            }
-                        }
-                    }
-                    ast::TemplateParam::Value(val_param) => {
-                        let value_backing;
-                        let value = match (provided_value, &val_param.default) {
-                            (None, Some(default)) => {
-                                let val = parse_and_evaluate_constant_expression(default, self)?;
-                                value_backing = ir::TypeOrConstant::Constant(val);
-                                Some(&value_backing)
-                            }
-                            (value, _) => value,
-                        };
-
-                        match value {
-                            Some(ir::TypeOrConstant::Constant(value)) => {
-                                final_params.push(ir::TypeOrConstant::Constant(value.clone()));
-                                if let Some(name) = &val_param.name {
-                                    self.register_valuedef(
-                                        name.clone(),
-                                        value.clone().unrestrict(),
-                                    )?
-                                }
-                            }
-                            None => {
-                                return Err(TyperError::TemplateArgumentMissing(
-                                    error_loc,
-                                    val_param.name.clone(),
-                                ));
-                            }
-
-                            Some(_) => {
-                                return Err(TyperError::TemplateArgumentExpectedNonType(
-                                    error_loc,
-                                    val_param.name.clone(),
-                                ));
-                            }
-                        }
-                    }
-                }
-            }
-
-            self.pop_scope();
-
-            let struct_template_data = &mut self.struct_template_data[id.0 as usize];
-            let sid_res = match struct_template_data.instantiations.get(&final_params) {
-                Some(sid) => Ok(*sid),
-                None => build_struct_from_template(ast, inst_scope, self),
-            };
-
-            // Back to calling scope
+            // Back to calling scope - also when the template arguments were rejected
             self.current_scope = current_scope;
 
             let sid = sid_res?;
@@ -435,6 +335,115 @@ impl Context {
                 .type_registry
                 .combine_modifier(unmodified_id, modifier);
             Ok(id)
+        }
+    }
+
+    /// Build the struct for a struct template with the given arguments
+    /// The current scope must be the scope the template was declared in and is not restored on failure
+    fn instantiate_struct_template(
+        &mut self,
+        id: ir::StructTemplateId,
+        ast: &ast::StructDefinition,
+        template_args: &[ir::TypeOrConstant],
+        error_loc: SourceLocation,
+    ) -> TyperResult<ir::StructId> {
+        // Make a scope for the struct to first generate template arguments
+        // If this then is a duplicate of another struct this will be unused
+        let inst_scope = self.push_scope_with_name(&ast.name);
+
+        // Fail if we are given more arguments than we support
+        if template_args.len() > ast.template_params.0.len() {
+            return Err(TyperError::TooManyTemplateArguments(error_loc));
+        }
+
+        // Register template arguments
+        let mut final_params = Vec::with_capacity(ast.template_params.0.len());
+        for (i, template_param) in ast.template_params.0.iter().enumerate() {
+            let provided_value = if i < template_args.len() {
+                Some(&template_args[i])
+            } else {
+                None
+            };
+
+            match template_param {
+                ast::TemplateParam::Type(ty_param) => {
+                    let value_backing;
+                    let value = match (provided_value, &ty_param.default) {
+                        (None, Some(default)) => {
+                            let ty = parse_type_for_usage(
+                                default,
+                                TypePosition::TemplateArgument,
+                                self,
+                            )?;
+                            value_backing = ir::TypeOrConstant::Type(ty);
+                            Some(&value_backing)
+                        }
+                        (value, _) => value,
+                    };
+
+                    match value {
+                        Some(ir::TypeOrConstant::Type(ty)) => {
+                            final_params.push(ir::TypeOrConstant::Type(*ty));
+                            if let Some(name) = &ty_param.name {
+                                self.register_typedef(name.clone(), *ty)?
+                            }
+                        }
+                        None => {
+                            return Err(TyperError::TemplateArgumentMissing(
+                                error_loc,
+                                ty_param.name.clone(),
+                            ));
+                        }
+                        Some(_) => {
+                            return Err(TyperError::TemplateArgumentExpectedType(
+                                error_loc,
+                                ty_param.name.clone(),
+                            ));
+                        }
+                    }
+                }
+                ast::TemplateParam::Value(val_param) => {
+                    let value_backing;
+                    let value = match (provided_value, &val_param.default) {
+                        (None, Some(default)) => {
+                            let val = parse_and_evaluate_constant_expression(default, self)?;
+                            value_backing = ir::TypeOrConstant::Constant(val);
+                            Some(&value_backing)
+                        }
+                        (value, _) => value,
+                    };
+
+                    match value {
+                        Some(ir::TypeOrConstant::Constant(value)) => {
+                            final_params.push(ir::TypeOrConstant::Constant(value.clone()));
+                            if let Some(name) = &val_param.name {
+                                self.register_valuedef(name.clone(), value.clone().unrestrict())?
+                            }
+                        }
+                        None => {
+                            return Err(TyperError::TemplateArgumentMissing(
+                                error_loc,
+                                val_param.name.clone(),
+                            ));
+                        }
+
+                        Some(_) => {
+                            return Err(TyperError::TemplateArgumentExpectedNonType(
+                                error_loc,
+                                val_param.name.clone(),
+                            ));
+                        }
+                    }
+                }
+            }
+        }
+
+        self.pop_scope();
+
+        let struct_template_data = &mut self.struct_template_data[id.0 as usize];
+        match struct_template_data.instantiations.get(&final_params) {
+            Some(sid) => Ok(*sid),
+            None => build_struct_from_template(ast, inst_scope, self),
         }
     }
 
